@@ -408,10 +408,17 @@ class NodeTable:
                                 "_CAMEL_TO_SNAKE_RE.sub":
                             if isinstance(c.args[0], ast.Constant):
                                 sep = c.args[0].value
-                            if ast.unparse(c.args[1]) != "cls.__name__":
-                                raise AnalysisError(
-                                    "mapper_method derivation no longer uses "
-                                    "cls.__name__")
+                            # recorded, judged by C04 (rule N2): module-
+                            # level classes have __qualname__ == __name__, so
+                            # the rest of the model is unaffected
+                            a1 = c.args[1]
+                            self.derivation_source = ast.unparse(a1)
+                            self.derivation_line = c.lineno
+                            self.derivation_from_name = (
+                                isinstance(a1, ast.Attribute)
+                                and a1.attr == "__name__"
+                                and isinstance(a1.value, ast.Name)
+                                and a1.value.id == fn.args.args[0].arg)
                 elif isinstance(v, ast.JoinedStr) and snake_var and any(
                         isinstance(p, ast.FormattedValue)
                         and isinstance(p.value, ast.Name)
